@@ -465,7 +465,9 @@ class Netlist:
                         cycle.path.append((cell, net.bit, src_loc))
                         break
 
-            if cycle is not None and cycle.start == net:
+            # (For cells whose outputs all depend on all inputs, a path that comes back to any other
+            # output of the cell we entered closes the cycle as well.)
+            if cycle is not None and (cycle.start == net or cycle.start in extra_nets):
                 msg = ["Combinational cycle detected, path:\n"]
                 for obj, bit, src_loc in reversed(cycle.path):
                     if isinstance(obj, _ast.Signal):
